@@ -112,6 +112,10 @@ def run_case(case):
                 continue
             C["interpreter_processes"] += 1
             for rec in pickle.load(open(out, "rb")):
+                if rec["key"] == "__reach__":
+                    from .. import reach
+                    reach.SEEN.update(tuple(x) for x in rec["reach"])      # executed by the shard on behalf of this worker
+                    continue
                 results.setdefault(rec["key"], []).append(rec)
     finally:
         shutil.rmtree(tmp, ignore_errors=True)
